@@ -280,6 +280,29 @@ SRCTIE = {
       "Reader.index_levels", "ReaderCursor", "ReaderCursor.current", "ReaderCursor.reset", "ReaderCursor.new", "ReaderCursor.next_block_from_index",
       "ReaderCursor.prev_block_from_index", "ReaderCursor.move_on_first", "ReaderCursor.move_on_last", "ReaderCursor.move_on_next", "ReaderCursor.move_on_prev",
       "ReaderCursor.move_on_key_greater_than_or_equal_to", "ReaderCursor.move_on_key_lower_than_or_equal_to", "ReaderCursor.move_on_key_equal_to"]),
+    "Grenad.SrcTie.ReaderE2E": ("SrcReaderCursor", ["Block", "Block.read_from", "CompressionType", "Block.new", "BlockCursor.new", "Block.into_cursor", "IndexBlockCursor", "IndexBlockCursor.new",
+                                                   "IndexBlockCursor.reset", "IndexBlockCursor.initial_index_blocks", "IndexBlockCursor.iter_index_blocks",
+                                                   "IndexBlockCursor.recursive_index_block.recursive", "IndexBlockCursor.recursive_index_block",
+                                                   "IndexBlockCursor.move_on_first", "IndexBlockCursor.move_on_last", "IndexBlockCursor.move_on_next",
+                                                   "IndexBlockCursor.move_on_prev", "IndexBlockCursor.move_on_key_greater_than_or_equal_to"]),
+    "Grenad.SrcTie.ReaderE2EIdx": ("SrcReaderCursor,SrcReaderCursor2", ["Block", "Block.read_from", "CompressionType", "Block.new", "BlockCursor.new", "Block.into_cursor", "IndexBlockCursor", "IndexBlockCursor.new",
+      "IndexBlockCursor.reset", "IndexBlockCursor.move_on_first", "IndexBlockCursor.move_on_last", "IndexBlockCursor.move_on_next",
+      "IndexBlockCursor.move_on_prev", "IndexBlockCursor.move_on_key_greater_than_or_equal_to", "Reader", "Reader.compression_type", "Reader.index_block_offset",
+      "Reader.index_levels", "ReaderCursor", "ReaderCursor.current", "ReaderCursor.reset", "ReaderCursor.new", "ReaderCursor.next_block_from_index",
+      "ReaderCursor.prev_block_from_index", "ReaderCursor.move_on_first", "ReaderCursor.move_on_last", "ReaderCursor.move_on_next", "ReaderCursor.move_on_prev",
+      "ReaderCursor.move_on_key_greater_than_or_equal_to", "ReaderCursor.move_on_key_lower_than_or_equal_to", "ReaderCursor.move_on_key_equal_to", "IndexBlockCursor.initial_index_blocks", "IndexBlockCursor.iter_index_blocks", "IndexBlockCursor.recursive_index_block.recursive", "IndexBlockCursor.recursive_index_block", "Reader.new", "Reader.into_cursor", "Metadata", "Metadata.read_from"]),
+    "Grenad.SrcTie.ReaderE2EGen": ("SrcMeta,SrcReaderCursor,SrcReaderCursor2", ["Block", "Block.read_from", "CompressionType", "Block.new", "BlockCursor.new", "Block.into_cursor", "IndexBlockCursor", "IndexBlockCursor.new",
+      "IndexBlockCursor.reset", "IndexBlockCursor.move_on_first", "IndexBlockCursor.move_on_last", "IndexBlockCursor.move_on_next",
+      "IndexBlockCursor.move_on_prev", "IndexBlockCursor.move_on_key_greater_than_or_equal_to", "Reader", "Reader.compression_type", "Reader.index_block_offset",
+      "Reader.index_levels", "ReaderCursor", "ReaderCursor.current", "ReaderCursor.reset", "ReaderCursor.new", "ReaderCursor.next_block_from_index",
+      "ReaderCursor.prev_block_from_index", "ReaderCursor.move_on_first", "ReaderCursor.move_on_last", "ReaderCursor.move_on_next", "ReaderCursor.move_on_prev",
+      "ReaderCursor.move_on_key_greater_than_or_equal_to", "ReaderCursor.move_on_key_lower_than_or_equal_to", "ReaderCursor.move_on_key_equal_to", "IndexBlockCursor.initial_index_blocks", "IndexBlockCursor.iter_index_blocks", "IndexBlockCursor.recursive_index_block.recursive", "IndexBlockCursor.recursive_index_block", "Reader.new", "Reader.into_cursor", "Metadata", "Metadata.read_from"]),
+    "Grenad.SrcTie.ReaderE2ESmoke": ("SrcMeta,SrcReaderCursor,SrcReaderCursor2", ["Block", "Block.read_from", "CompressionType", "Block.new", "BlockCursor.new", "Block.into_cursor", "IndexBlockCursor", "IndexBlockCursor.new",
+      "IndexBlockCursor.reset", "IndexBlockCursor.move_on_first", "IndexBlockCursor.move_on_last", "IndexBlockCursor.move_on_next",
+      "IndexBlockCursor.move_on_prev", "IndexBlockCursor.move_on_key_greater_than_or_equal_to", "Reader", "Reader.compression_type", "Reader.index_block_offset",
+      "Reader.index_levels", "ReaderCursor", "ReaderCursor.current", "ReaderCursor.reset", "ReaderCursor.new", "ReaderCursor.next_block_from_index",
+      "ReaderCursor.prev_block_from_index", "ReaderCursor.move_on_first", "ReaderCursor.move_on_last", "ReaderCursor.move_on_next", "ReaderCursor.move_on_prev",
+      "ReaderCursor.move_on_key_greater_than_or_equal_to", "ReaderCursor.move_on_key_lower_than_or_equal_to", "ReaderCursor.move_on_key_equal_to", "IndexBlockCursor.initial_index_blocks", "IndexBlockCursor.iter_index_blocks", "IndexBlockCursor.recursive_index_block.recursive", "IndexBlockCursor.recursive_index_block", "Reader.new", "Reader.into_cursor", "Metadata", "Metadata.read_from"]),
     "Grenad.SrcTie.Compression": ("SrcCompression", ["CompressionType", "compress", "decompress"]),
     "Grenad.SrcTie.MergerIter": ("SrcMerger,SrcMergerIter", ["Entry", "Entry.cmp", "MergerIter", "MergerIter.next", "Merger", "Merger.into_stream_merger_iter"]),
     "Grenad.SrcTie.MergerIterNext": ("SrcMerger,SrcMergerIter", ["Entry", "Entry.cmp", "MergerIter", "MergerIter.next", "Merger", "Merger.into_stream_merger_iter"]),
@@ -292,9 +315,9 @@ SRCTIE = {
 for _p, _mods in {"C14": ["Varint", "Block", "C14Src"], "C13": ["Meta", "C13Src"], "C10": ["Meta", "C10Src"],
                   "C09": ["Meta", "BlockWriter", "Varint", "C13Src", "CountWrite", "WriterBlock", "WriterInsert", "WriterFinish", "WriterRun", "Compression"], "C04": ["IterRange", "IterNext", "C04C05Src"],
                   "C05": ["IterPrefix", "C05Src", "IterNext", "C04C05Src"], "C18": ["BlockWriter", "C18Src", "WriterBlock", "WriterInsert", "WriterRun"], "C15": ["BlockWriter", "WriterBuilder", "WriterCut", "WriterInsert", "WriterBuild"],
-                  "C01": ["BlockWriter", "Varint", "Meta", "Block", "BlockCursor", "TBlockSrc", "BuiltSrc", "NoPanic", "EndToEnd", "BlockLoad", "WriterBlock", "WriterLemmas", "WriterCut", "WriterInsert", "WriterFinish", "WriterRun", "WriterBounds", "WriterBuild", "Compression", "ReaderCursorTie", "ReaderCursorTieStep"],
-                  "C02": ["BlockCursor", "Smoke", "TBlockSrc", "NoPanic", "IndexCursorLoad", "IndexCursorIter", "IndexCursor", "ReaderCursorTie", "ReaderCursorTieStep"],
-                  "C03": ["IndexCursorLoad", "IndexCursorInit", "IndexCursorIter", "IndexCursorRec", "IndexCursor", "IndexCursorSmoke", "ReaderCursorTie", "ReaderCursorTieStep"],
+                  "C01": ["BlockWriter", "Varint", "Meta", "Block", "BlockCursor", "TBlockSrc", "BuiltSrc", "NoPanic", "EndToEnd", "BlockLoad", "WriterBlock", "WriterLemmas", "WriterCut", "WriterInsert", "WriterFinish", "WriterRun", "WriterBounds", "WriterBuild", "Compression", "ReaderCursorTie", "ReaderCursorTieStep", "ReaderE2E", "ReaderE2EIdx", "ReaderE2EGen", "ReaderE2ESmoke"],
+                  "C02": ["BlockCursor", "Smoke", "TBlockSrc", "NoPanic", "IndexCursorLoad", "IndexCursorIter", "IndexCursor", "ReaderCursorTie", "ReaderCursorTieStep", "ReaderE2E", "ReaderE2EIdx", "ReaderE2EGen"],
+                  "C03": ["IndexCursorLoad", "IndexCursorInit", "IndexCursorIter", "IndexCursorRec", "IndexCursor", "IndexCursorSmoke", "ReaderCursorTie", "ReaderCursorTieStep", "ReaderE2E", "ReaderE2EIdx", "ReaderE2EGen", "ReaderE2ESmoke"],
                   "C16": ["IndexCursorLoad", "IndexCursorInit", "IndexCursorIter", "IndexCursorRec", "IndexCursor", "ReaderCursorTie", "ReaderCursorTieStep"], "C06": ["Merger", "MergerIter", "MergerIterNext", "MergerIterStep", "MergerIterRun"], "C11": ["CountWrite"], "C08": ["Sorter"], "C07": ["Sorter"]}.items():
     PROPS[_p]["srctie"] = ["Grenad.SrcTie." + m for m in _mods]
 
